@@ -56,14 +56,19 @@ def run(prog, rep, tier):
         rep.examined(R74, "sample|" + str(s)[:60], sample=s)
     import c08 as _c08w
     s8 = _sub(prog, rep, _c08w, "C08")
-    R712 = rep.rule("R7.12", "worker loops advance past a record they could not decode (from C08 R8.6, C06 R6.7)")
+    R712 = rep.rule("R7.12", "worker loops advance past damaged input instead of repeating the same step (from C08 R8.6, C06 R6.7, C11 R11.10/R11.8)")
     for (rid, key, what, detail) in s8.violations:
         if rid == "R8.6":
             rep.violation(R712, key.split("|", 1)[1], what + " [a damaged record makes the worker spin: nothing more is printed from any source]")
     for (rid, key, what, detail) in s6.violations:
         if rid == "R6.7":
             rep.violation(R712, key.split("|", 1)[1], what)
-    for k_ in sorted(s8.rules.get("R8.6", {}).get("keys", ())) + sorted(s6.rules.get("R6.7", {}).get("keys", ())):
+    import c11 as _c11w
+    s11 = _sub(prog, rep, _c11w, "C11")
+    for (rid, key, what, detail) in s11.violations:
+        if rid in ("R11.10", "R11.8"):
+            rep.violation(R712, key.split("|", 1)[1], what)
+    for k_ in sorted(s8.rules.get("R8.6", {}).get("keys", ())) + sorted(s6.rules.get("R6.7", {}).get("keys", ())) + sorted(s11.rules.get("R11.10", {}).get("keys", ())):
         rep.examined(R712, k_, sample={"instance": k_})
     s5 = _sub(prog, rep, c05, "C05")
     for (rid, key, what, detail) in s5.violations:
